@@ -254,6 +254,15 @@ let () =
              | _, None -> (true, 0, 0)
              | _, Some _ -> (false, 0, 0)) in
            Printf.printf "A %s %s %s %d %d\n" id tag (string_of_bool agree) nc nr
+         | "mpsrt", [] ->
+           (* the statement of C09_mps_roundtrip evaluated on one problem: <wf_coreb> <setnames_okb> <outcome of read_mps_res (write_mps P)> <equiv_by_name P P'> *)
+           let p = (match next_tokens ic with Some h -> read_mlp_hdr ic h | None -> failwith "MLP expected") in
+           let wc = wf_coreb !sentinel p and sn = setnames_okb !sentinel p in
+           let r = read_mps_res true !sentinel (write_mps !sentinel p) in
+           let tag, eqv = (match r with
+             | MOk p' -> ("OK", equiv_by_name (mlp_to_nlp p) (mlp_to_nlp p'))
+             | MErr e -> ("ERR:" ^ reason_name e, false) | MFlt -> ("FLT", false) | MFuel -> ("FUEL", false)) in
+           Printf.printf "A %s %s %s %s %s\n" id (if wc then "1" else "0") (if sn then "1" else "0") tag (string_of_bool eqv)
          | "parseline", [ v; l ] ->
            (match parse_line (v = "1") (chars_of_string (dec l)) with
             | None -> Printf.printf "A %s NONE\n" id
